@@ -627,6 +627,72 @@ func main() {
 			}
 		})
 
+		// RSV1 on a control frame or a continuation is a protocol error of the frame's *header*: it is
+		// reported as such also when the stream ends, or the transport fails, inside that frame's
+		// payload - the payload of a refused frame is nobody's business.
+		r.Part("E2c-refused-RSV1-frame-with-a-broken-payload", func(t *explore.T) {
+			for _, side := range []streams.Side{streams.Server, streams.Client} {
+				mk := func(i int, op byte, fin bool, rsv byte, p string) []byte {
+					return streams.Frame{H: refmodel.Hdr{Fin: fin, Rsv: rsv, Op: op, Masked: side == streams.Server, Mask: streams.Masks[i%3]}, Payload: []byte(p)}.Wire()
+				}
+				type sc struct {
+					name   string
+					prefix []byte
+					bad    []byte
+				}
+				scs := []sc{
+					{"Ping(RSV1, pi) at the top level", nil, mk(0, 9, true, 4, "pi")},
+					{"Text-(a, compressed) then Ping(RSV1, pi)", mk(0, 1, false, 4, "a"), mk(1, 9, true, 4, "pi")},
+					{"Text-(a) then Close(RSV1, 03e8)", mk(0, 1, false, 0, "a"), mk(1, 8, true, 4, "\x03\xe8")},
+					{"Bin-(a, compressed) then Cont(RSV1, bc)", mk(0, 2, false, 4, "a"), mk(1, 0, true, 4, "bc")},
+				}
+				for _, s := range scs {
+					hdrLen := len(s.bad) - 2
+					for got := 0; got <= 2; got++ {
+						for _, end := range []string{"EOF", "error", "error-with-last-bytes", "complete"} {
+							if end == "complete" && got != 2 {
+								continue
+							}
+							if end == "error-with-last-bytes" && got == 0 {
+								continue
+							}
+							side, s, got, end := side, s, got, end
+							t.Do(func() string {
+								return fmt.Sprintf("%s %s: %d of 2 payload bytes arrive, then %s", side, s.name, got, end)
+							}, func() *explore.Fail {
+								data := append(append([]byte{}, s.prefix...), s.bad[:hdrLen+got]...)
+								src := env.NewSrc(data)
+								if end == "error" || end == "error-with-last-bytes" {
+									src.EndErr = env.ErrInjected
+								}
+								src.WithLast = end == "error-with-last-bytes"
+								var ms wsflate.MessageState
+								rd := &wsutil.Reader{Source: src, State: drivers.State(side) | ws.StateExtended, Extensions: []wsutil.RecvExtension{&ms}}
+								rd.OnIntermediate = func(h ws.Header, r io.Reader) error {
+									_, e := io.Copy(io.Discard, r)
+									return e
+								}
+								var err error
+								if len(s.prefix) > 0 {
+									if _, err = rd.NextFrame(); err != nil {
+										return explore.Failf("harness-prefix", "%v", err)
+									}
+									_, err = io.ReadAll(rd)
+								} else {
+									_, err = rd.NextFrame()
+								}
+								if _, ok := err.(ws.ProtocolError); !ok {
+									return explore.Failf("illegal-RSV1-not-reported-as-protocol-error", "err=%v (%T)", err, err)
+								}
+								return nil
+							})
+						}
+					}
+				}
+			}
+			t.Outcome("protocol-error")
+		})
+
 		// A message that the application gives up on - Discard returns an error although the
 		// stream stays in sync (the caller's continuation handler fails on the last fragment; the
 		// transport reports a temporary error together with the message's last bytes; a control
